@@ -16,7 +16,7 @@ C22-PARKED   while such a temp owns a reference, every label a generated child (
              label created in this function, and each of these labels must be placed (label_interceptor body, or put_label) with an
              emitted release of the temp (put_[x]decref[_clear](t), directly or in a self.helper) on every path.  Otherwise the
              reference leaks when the child leaves by that exit (`try: return x finally: cleanup()` with a failing cleanup()).
-C22-RETLIVE  in code emitted at a return-intercepting label no child code is generated while the result variable still holds the
+C22-RETLIVE  in code emitted at a return-intercepting label no child code is generated (and no error exit emitted) while the result variable still holds the
              pending value of a reference-counted return type: it has to be moved out first (and is then subject to C22-PARKED).
 
 Technique: path-sensitive symbolic evaluation (engine/pyflow, the checker's own evaluator; kind 2 of DESIGN 9.1) of each candidate
@@ -31,7 +31,9 @@ that path with an info line.  Nothing of the repository is imported or executed.
 NOT decided: temps kept in attributes (`self.exit_var`: other nodes of the tree release them), tuples of temps (the exception triples:
 C22-ROLE / C22-ZERO), references obtained by a call rather than a move (G7), paths that are feasible only without the GIL (tests on
 *nogil* attributes / the GIL exit pseudo-statement: no Python reference can be pending there), labels saved in attributes and
-placed by another method (parallel blocks).
+placed by another method (parallel blocks).  Path feasibility is decided from the tests of the generator itself (label comparisons,
+return type predicates, boolean locals kept symbolically); pyflow merges paths that agree on all facts of this rule and then forgets
+the tests in which they differed, so a contradiction between two tests on unrelated attributes of the tree is not always seen.
 """
 import ast, re
 
@@ -537,11 +539,11 @@ class Ev:
     def jump(self, st, node, kinds, what):
         """a generated child / emitted error exit may jump to the current labels of `kinds`"""
         s = set(st)
-        if self.loaded(st, ('R',)) and what != 'error exit':
+        if self.loaded(st, ('R',)):
             s.add(self.report('C22-RETLIVE', 'Naming.retval_cname', node, st,
-                        '%s generates child code (%s) at a label that intercepts `return` while the result variable still holds the pending return value: '
-                        'when that code raises (or leaves with break / continue and the function then ends without another return) the variable is overwritten '
-                        'and the returned object leaks, e.g. `try: return x  finally: raise E`' % (self.top.qn, node_src(node, 70))))
+                              '%s emits %s (%s) at a label that intercepts `return` while the result variable still holds the pending return value: '
+                              'when that code raises (or leaves with break / continue and the function then ends without another return) the variable is overwritten '
+                              'and the returned object leaks, e.g. `try: return x  finally: raise E`' % (self.top.qn, what, node_src(node, 70))))
         for f in st:
             if f[0] == 'loaded' and f[1][0] == 'temp':
                 t = f[1]
